@@ -46,30 +46,27 @@ Qed.
 
 (* the store functions *)
 Lemma conversion_factor_one_iff a b :
-  ueq (angle a) (angle b) ->
-  (conversion_factor a b = Ok (inl tt) <-> is_equivalent a b = true).
+  conversion_factor a b = Ok (inl tt) <-> is_equivalent a b = true.
 Proof.
-  intros Hang. unfold conversion_factor, is_equivalent. rewrite equiv_iff_conv_one.
+  unfold conversion_factor, is_equivalent. rewrite equiv_iff_conv_one.
   destruct (conv a b) as [c|] eqn:Hc.
   - destruct (is_one c) eqn:H1; split.
-    + intros _. split; [|exact Hang]. exists c; split; [reflexivity|exact H1].
+    + intros _. exists c; split; [reflexivity|exact H1].
     + reflexivity.
     + discriminate.
-    + intros [[c' [[= <-] H]] _]. congruence.
-  - split; [discriminate|]. intros [[c' [H _]] _]; discriminate.
+    + intros [c' [[= <-] H]]. congruence.
+  - split; [discriminate|]. intros [c' [H _]]; discriminate.
 Qed.
 
-(* pint's dimension-less base unit radian: factor 1 to dimensionless, yet not "equivalent" *)
-Lemma conversion_factor_one_not_equivalent_refuted :
-  exists a b, conversion_factor a b = Ok (inl tt) /\ is_equivalent a b = false.
-Proof. exists [(angle_gen, 1%Q)], []. split; vm_compute; reflexivity. Qed.
+(* pint's dimension-less base unit radian: factor 1 to dimensionless, and (since the fix) equivalent to it *)
+Lemma radian_equivalent_to_dimensionless :
+  conversion_factor [(angle_gen, 1%Q)] [] = Ok (inl tt) /\ is_equivalent [(angle_gen, 1%Q)] [] = true /\
+  is_equivalent [(angle_gen, 2%Q); ((-7)%Z, 1%Q)] [((-7)%Z, 1%Q)] = true.
+Proof. repeat split; vm_compute; reflexivity. Qed.
 
 Lemma equivalent_implies_factor_one a b :
   is_equivalent a b = true -> conversion_factor a b = Ok (inl tt).
-Proof.
-  unfold conversion_factor, is_equivalent. rewrite equiv_iff_conv_one.
-  intros [[c [Hc H1]] _]. rewrite Hc, H1. reflexivity.
-Qed.
+Proof. apply conversion_factor_one_iff. Qed.
 
 Lemma conversion_factor_value a b c :
   conversion_factor a b = Ok (inr c) -> scaleR c = scaleR a / scaleR b /\ is_equivalent a b = false.
@@ -119,26 +116,25 @@ Proof.
 Qed.
 
 Lemma is_equivalent_refl a : is_equivalent a a = true.
-Proof. apply ueqb_spec. reflexivity. Qed.
+Proof. apply equivb_spec. split; reflexivity. Qed.
 Lemma is_equivalent_sym a b : is_equivalent a b = is_equivalent b a.
 Proof.
-  unfold is_equivalent, equivb.
-  destruct (ueqb a b) eqn:E1, (ueqb b a) eqn:E2; try reflexivity.
-  - apply ueqb_spec in E1. symmetry in E1. apply ueqb_spec in E1. congruence.
-  - apply ueqb_spec in E2. symmetry in E2. apply ueqb_spec in E2. congruence.
+  unfold is_equivalent.
+  destruct (equivb a b) eqn:E1, (equivb b a) eqn:E2; try reflexivity.
+  - apply equivb_spec in E1 as [A B]. assert (equivb b a = true) by (apply equivb_spec; split; symmetry; assumption). congruence.
+  - apply equivb_spec in E2 as [A B]. assert (equivb a b = true) by (apply equivb_spec; split; symmetry; assumption). congruence.
 Qed.
 Lemma is_equivalent_trans a b c :
   is_equivalent a b = true -> is_equivalent b c = true -> is_equivalent a c = true.
 Proof.
-  unfold is_equivalent, equivb. rewrite !ueqb_spec. intros H1 H2. etransitivity; eassumption.
+  unfold is_equivalent. rewrite !equivb_spec. intros [A1 B1] [A2 B2]. split; etransitivity; eassumption.
 Qed.
 
 Lemma is_equivalent_scale_dims a b :
   is_equivalent a b = true -> scaleR a = scaleR b /\ ueq (dims a) (dims b).
 Proof.
-  unfold is_equivalent, equivb. rewrite ueqb_spec. intros H. split.
-  - apply scaleR_ueq; exact H.
-  - apply dims_ueq; exact H.
+  unfold is_equivalent. rewrite equivb_spec. intros [Hd Hs]. split; [|exact Hd].
+  rewrite <- (scaleR_scale a), <- (scaleR_scale b). apply scaleR_ueq. exact Hs.
 Qed.
 
 (* Non-vacuity: millivolt vs volt *)
